@@ -97,6 +97,9 @@ pub enum Hook {
     Withdraw,
     ROps { ops: Vec<(A, A)>, min: Option<u128>, to: Option<u64> },
     Garbage,
+    // the router's *internal* execute messages sent as a hook payload (a `Receive` must never dispatch them)
+    IOp { offer: A, ask: A, to: Option<u64> },
+    IAssert { asset: A, prev: u128, min: u128, rcv: u64 },
 }
 
 fn o<T: ToString>(x: &Option<T>) -> String {
@@ -138,6 +141,8 @@ impl std::fmt::Display for Hook {
             Hook::Withdraw => write!(f, "withdraw"),
             Hook::ROps { ops, min, to } => write!(f, "rops:{}:{}:{}", ops_str(ops), o(min), o(to)),
             Hook::Garbage => write!(f, "garbage"),
+            Hook::IOp { offer, ask, to } => write!(f, "iop:{offer}:{ask}:{}", o(to)),
+            Hook::IAssert { asset, prev, min, rcv } => write!(f, "iassert:{asset}:{prev}:{min}:{rcv}"),
         }
     }
 }
@@ -147,6 +152,8 @@ fn parse_hook(s: &str) -> Hook {
         "swap" => Hook::Swap { offer: parse_asset(p[1]), amt: p[2].parse().unwrap(), belief: po(p[3]), ms: po(p[4]), to: po(p[5]) },
         "withdraw" => Hook::Withdraw,
         "rops" => Hook::ROps { ops: parse_ops(p[1]), min: po(p[2]), to: po(p[3]) },
+        "iop" => Hook::IOp { offer: parse_asset(p[1]), ask: parse_asset(p[2]), to: po(p[3]) },
+        "iassert" => Hook::IAssert { asset: parse_asset(p[1]), prev: p[2].parse().unwrap(), min: p[3].parse().unwrap(), rcv: p[4].parse().unwrap() },
         _ => Hook::Garbage,
     }
 }
@@ -413,6 +420,15 @@ impl<'a> Env<'a> {
                 operations: self.swap_ops(ops),
                 minimum_receive: min.map(Uint128::new),
                 to: to.map(|x| self.astr(x)),
+            })
+            .unwrap(),
+            Hook::IOp { offer, ask, to } => to_binary(&RouterExec::ExecuteSwapOperation {
+                operation: SwapOperation::HaloSwap { offer_asset_info: self.info(*offer), ask_asset_info: self.info(*ask) },
+                to: to.map(|x| self.astr(x)),
+            })
+            .unwrap(),
+            Hook::IAssert { asset, prev, min, rcv } => to_binary(&RouterExec::AssertMinimumReceive {
+                asset_info: self.info(*asset), prev_balance: Uint128::new(*prev), minimum_receive: Uint128::new(*min), receiver: self.astr(*rcv),
             })
             .unwrap(),
             Hook::Garbage => {
@@ -894,6 +910,8 @@ pub fn setup<'a>(w: &'a mut dyn Write, seq: u64, seed: u64, family: &str) -> (En
         let aid = env.aid(&up);
         env.alias_tokens.push(aid);
         env.decl_asset(A::T(aid));
+        // as an *account* such a string fails address validation ("not normalized")
+        writeln!(env.w, "bad {aid}").unwrap();
     }
     for u in 0..users.len() {
         for d in 0..env.denoms.len() {
@@ -1177,6 +1195,8 @@ impl Gen {
             // other contracts as recipients: an LP token's own address, a token contract, the factory, the router
             8 if r.chance(1, 2) => Some(match r.below(4) { 0 => pm.lp, 1 => *r.pick(&e.tokens), 2 => e.factory, _ => e.router }),
             7 if family == "route" => Some(e.router),
+            // a recipient string that fails address validation: the call must be rejected, not re-routed
+            9 => Some(*r.pick(&e.alias_tokens)),
             _ => None,
         };
         Some(match kind {
@@ -1275,7 +1295,7 @@ impl Gen {
                 // rarely: declare a token deposit under the native denom that reads like the token's address
                 let x0 = match x0 { A::T(t) if r.chance(1, 25) => self.alias_of(e, t).map(A::N).unwrap_or(x0), _ => x0 };
                 let funds = self.funds_for(r, &[(x0, m0), (x1, m1)]);
-                let rcv = match r.below(20) { 0 | 1 | 2 | 3 => Some(self.user(e, r)), 4 => Some(pm.lp), 5 => Some(pm.addr), 6 => Some(e.router), _ => None };
+                let rcv = match r.below(20) { 0 | 1 | 2 | 3 => Some(self.user(e, r)), 4 => Some(pm.lp), 5 => Some(pm.addr), 6 => Some(e.router), 7 => Some(*r.pick(&e.alias_tokens)), _ => None };
                 Op::Provide { s, p: pm.addr, funds, as0: x0, am0: m0, as1: x1, am1: m1, tol, rcv }
             }
             "withdraw" => {
@@ -1532,10 +1552,21 @@ impl Gen {
                     }
                 }
             }
+            "rauth" if r.chance(1, 4) => {
+                // the router's internal messages smuggled in as the payload of a `Receive`: raw (any claimed sender, also the
+                // router itself) or through a real cw20 `Send`
+                let hook = if r.chance(2, 3) { Hook::IOp { offer: pm.a0, ask: pm.a1, to: Some(u) } }
+                           else { Hook::IAssert { asset: pm.a1, prev: 0, min: r.below(2) as u128, rcv: u } };
+                match r.below(3) {
+                    0 => Op::RReceive { s: u, funds: vec![], from: e.router, amount: r.below(1000) as u128, hook },
+                    1 => Op::RReceive { s: u, funds: vec![], from: self.user(e, r), amount: r.below(1000) as u128, hook },
+                    _ => Op::TokSend { t: *r.pick(&e.tokens), s: u, d: e.router, amt: 1 + r.below(1000) as u128, hook },
+                }
+            }
             "rauth" => match r.below(4) {
                 0 => Op::ROp { s: u, funds: vec![], offer: pm.a0, ask: pm.a1, to },
-                1 => Op::RAssert { s: u, funds: vec![], asset: pm.a0, prev: 0, min: r.below(2) as u128, rcv: u },
-                2 => Op::RReceive { s: u, funds: vec![], from: self.user(e, r), amount: r.below(1000) as u128,
+                1 => Op::RAssert { s: u, funds: vec![], asset: pm.a0, prev: 0, min: r.below(2) as u128, rcv: if r.chance(1, 5) { *r.pick(&e.alias_tokens) } else { u } },
+                2 => Op::RReceive { s: u, funds: vec![], from: if r.chance(1, 6) { *r.pick(&e.alias_tokens) } else { self.user(e, r) }, amount: r.below(1000) as u128,
                         hook: Hook::ROps { ops: vec![(pm.a0, pm.a1)], min: None, to } },
                 _ => Op::TokSend { t: *r.pick(&e.tokens), s: u, d: e.router, amt: 1 + r.below(1000) as u128, hook: Hook::Garbage },
             },
@@ -1573,7 +1604,7 @@ impl Gen {
                     }
                     _ => {
                         // hand ownership over (and, next time, possibly back), alone or together with code ids
-                        let new = if owner == e.users[0] { e.users[5] } else { e.users[0] };
+                        let new = if r.chance(1, 8) { *r.pick(&e.alias_tokens) } else if owner == e.users[0] { e.users[5] } else { e.users[0] };
                         let (tcode, pcode) = match r.below(3) { 0 => (Some(e.token_code), None), 1 => (None, Some(e.pair_code)), _ => (None, None) };
                         Op::FCfg { s, funds: vec![], owner: Some(new), tcode, pcode }
                     }
@@ -1675,12 +1706,15 @@ pub fn run(w: &mut dyn Write, family: &str, nseq: u64, nsteps: u64, seed: u64) {
                     e.step(Op::Provide { s, p: pm.addr, funds, as0: pm.a0, am0: d0, as1: pm.a1, am1: d1, tol: None, rcv: None });
                 }
                 let donor = e.users[3];
-                let a = if r.chance(1, 2) { pm.a0 } else { pm.a1 };
-                let amt = e.bal(a, donor) / (2 + r.below(4) as u128);
-                if amt > 0 {
-                    match a {
-                        A::N(d) => { e.step(Op::BankSend { s: donor, d: pm.addr, coins: vec![(d, amt)] }); }
-                        A::T(t) => { e.step(Op::TokTransfer { t, s: donor, d: pm.addr, amt }); }
+                // one side, or both (then the reserve *product* passes 2^196, where x*y*1e18 no longer fits 256 bits)
+                let sides: Vec<A> = match r.below(3) { 0 => vec![pm.a0], 1 => vec![pm.a1], _ => vec![pm.a0, pm.a1] };
+                for a in sides {
+                    let amt = e.bal(a, donor) / (2 + r.below(4) as u128);
+                    if amt > 0 {
+                        match a {
+                            A::N(d) => { e.step(Op::BankSend { s: donor, d: pm.addr, coins: vec![(d, amt)] }); }
+                            A::T(t) => { e.step(Op::TokTransfer { t, s: donor, d: pm.addr, amt }); }
+                        }
                     }
                 }
             }
